@@ -65,8 +65,22 @@ func runSignVar(sc M) {
 		payload = storeValue(str(sc, "payload"))
 	}
 	key := str(sc, "key")
-	cert := testCert(key, "i1", "s1")
+	issuer := str(sc, "issuer") // "" = self-signed i1; "ca" = issued by a separate CA (issuer differs from subject)
+	if issuer == "" {
+		issuer = "i1"
+	}
+	cert := testCert(key, issuer, "s1")
 	time.Local = zoneOf(str(sc, "tz"))
+	if sc["after_error"] == true {
+		// an earlier update of another variable failed in the signer (token removed, PIN timeout): the next one must not be affected
+		dl := &depLog{faultAt: 1, kind: "error"}
+		og := guidOf(varGUIDWire, "global")
+		ov := efivar.Efivar{Name: "EarlierVariable", GUID: &og, Attributes: attributes.Attributes(am)}
+		guard(func() error {
+			_, _, err := signature.SignEFIVariable(ov, rawDB(storeValue("d3")), faultySigner{testKey(key), dl}, cert)
+			return err
+		})
+	}
 	var signer crypto.Signer = testKey(key)
 	if sc["slow"] == true {
 		signer = slowSigner{testKey(key)}
